@@ -314,15 +314,22 @@ func c13RouteGen(g *hx.Gen) {
 		"/|.php|.php|index.html||",
 		"/app|.php|.php|index.php||K=1;;/|.cgi|.cgi|||Z=2",
 		"/|||||",
+		// excluded points of the routing theorem: a split string that does not occur in the
+		// extension, in other letter case, a proper part of it; an extension ending in a dot
+		"/|.php|.cgi|||",
+		"/|.php|.PHP|||",
+		"/|.php|.ph|||",
+		"/|.php|php5|||",
+		"/|.php.|.php|||",
 	}
 	fileSets := []string{
-		"a.php,app/x.php,app/index.php,app/sub/y.PHP,UP.PHP,b.txt,app/dl/z.php,app/static/s.php,c.php5,dir.php/f.txt,index.php,app/q.cgi",
+		"a.php,app/x.php,app/index.php,app/sub/y.PHP,UP.PHP,b.txt,app/dl/z.php,app/static/s.php,c.php5,dir.php/f.txt,index.php,app/q.cgi,t.php,t.php.,u.php .",
 		"b.txt",
 		"",
 	}
 	paths := []string{"/a.php", "/A.PHP", "/a.PhP", "/a.php/extra/info", "/a.php/x.php/y", "/app/", "/app", "/app/x.php", "/APP/X.PHP", "/app/sub/y.PHP", "/app/sub/y.php",
 		"/UP.PHP", "/UP.PHP/info", "/up.php", "/b.txt", "/missing.php", "/missing", "/a.php.", "/a.php ", "/a.php. .", "//a.php", "/app//x.php", "/app/dl/z.php", "/app/dl", "/app/DL/z.php",
-		"/app/static/s.php", "/", "", "/dir.php/f.txt", "/dir.php/", "/c.php5", "/a.phpx", "/app/./x.php", "/.php", "/app/x.php/", "/app/q.cgi", "/app/q.cgi/pi", "/index.php", "/app/index.php/a/b"}
+		"/app/static/s.php", "/", "", "/dir.php/f.txt", "/dir.php/", "/c.php5", "/a.phpx", "/app/./x.php", "/.php", "/app/x.php/", "/app/q.cgi", "/app/q.cgi/pi", "/index.php", "/app/index.php/a/b", "/t.php", "/t.php.", "/t.php..", "/u.php .", "/u.php", "/t.php. ", "/a.php5"}
 	methods := []string{"GET", "GET", "POST", "POST", "HEAD", "OPTIONS", "PUT", "DELETE", "PATCH"}
 	hdrLines := []string{"X-Foo: bar", "X-Foo: second", "Accept: */*", "Cookie: a=b; c=d", "Content-Type: application/json", "x-lower-case: v", "User-Agent: verif/1.0 (x y)", "X-Empty:", "Proxy: http://evil", "Authorization: Basic dTpw", "X-With-Dash-And-9: 9"}
 	remotes := []string{"192.0.2.1:1234", "[2001:db8::1]:443", "noport", "[::1]"}
